@@ -1003,3 +1003,8 @@ v("d80-null-key-rows-not-reattached", "C16", PB,
   "        if (null_key_right is not None) and (how in [\"right\", \"outer\"]):\n            unmatched.append(null_key_right.reindex(columns=res.columns))\n", "")
 v("d80-null-key-rows-reattached-for-inner", "C16", PB,
   "        if (null_key_left is not None) and (how in [\"left\", \"outer\"]):", "        if (null_key_left is not None) and (how in [\"left\"]):")
+
+v("d81-outer-not-mapped-to-full", "C16", ER, '    if join_str == "OUTER":\n        join_str = "FULL"  # OUTER is another spelling of FULL (OUTER JOIN alone is not SQL)\n', "")
+v("d82-remove-forgets-before-drop", "C20", "db_space.py",
+  "        self.db_handle.drop_table(key)  # forget the entry only once the table is gone\n        del self.description_map[key]\n",
+  "        del self.description_map[key]\n        self.db_handle.drop_table(key)\n")
